@@ -6,7 +6,8 @@ adjust:   adjust_posterior(sample, model, summary_names, parameter_names) on elf
           finite, regress theta_i on [1, D], expected = theta_i - D . slope.  The oracle is stated on D (simulated minus observed); it
           does not care which sign convention the code uses internally.  Also: a row with simulated == observed is returned bit-for-bit
           unchanged; the result is unchanged by an invertible affine re-expression s -> sA + c of the summaries (the clause that is NOT
-          proved deductively - it is a property of least squares with intercept).
+          proved deductively - it is a property of least squares with intercept).  One case in six passes ONE LinearAdjustment object to two
+          successive adjust_posterior calls (different samples): the second result must be the adjustment of the second sample.
 compare:  compare_models on Sample objects with tie-rich discrepancies, unequal sizes, n_sim and prior weights.  Oracle: the result must
           be p/sum(p), p_i = k_i / n_sim_i * prior_i for SOME admissible count vector k: a_i <= k_i <= a_i + b_i, sum k = n_min, where a_i /
           b_i are the numbers of draws of model i below / equal to the n_min-th smallest joint discrepancy (free choice among ties);
@@ -74,13 +75,29 @@ def check_adjust(inp, mods=None):
     pn = ['p%d' % i for i in range(p)]
     sn = ['s%d' % c for c in range(m)]
 
-    def run(S_, O_):
+    adj = [None]
+    if inp.get('refit') or inp.get('adjustment') == 'instance':
+        adj[0] = pp.LinearAdjustment()          # ONE adjustment object, passed to every call below
+
+    def sample_of(S_, thetas_):
         outputs = {sn[c]: S_[:, c].copy() for c in range(m)}
-        outputs.update({pn[i]: thetas[i].copy() for i in range(p)})
-        smp = res.Sample(method_name='constructed', outputs=outputs, parameter_names=list(pn), discrepancy_name=None)
+        outputs.update({pn[i]: np.asarray(thetas_[i], float).copy() for i in range(p)})
+        return res.Sample(method_name='constructed', outputs=outputs, parameter_names=list(pn), discrepancy_name=None)
+
+    def run(S_, O_, thetas_=None):
+        smp = sample_of(S_, thetas if thetas_ is None else thetas_)
         with native.time_limit(20):
             return pp.adjust_posterior(smp, _model(elfi, O_), list(sn), list(pn) if inp.get('names_given', True) else None,
-                                       adjustment=inp.get('adjustment', 'linear') if inp.get('adjustment', 'linear') == 'linear' else pp.LinearAdjustment())
+                                       adjustment='linear' if adj[0] is None else adj[0])
+    if inp.get('refit'):
+        # the same adjustment object was used before, on another sample (same summaries / parameters)
+        S0 = np.array([[_unf(v) for v in r] for r in inp['refit']['S']], float).reshape(len(inp['refit']['S']), -1)
+        th0 = [np.array([_unf(v) for v in t], float) for t in inp['refit']['thetas']]
+        try:
+            with np.errstate(all='ignore'):
+                run(S0, O, th0)
+        except Exception as e:
+            return 'adjust_posterior (earlier use of the adjustment object) raised %s: %s' % (type(e).__name__, e)
     try:
         with np.errstate(all='ignore'):
             r = run(S, O)
@@ -146,6 +163,11 @@ def _gen_adjust(rng, kind):
         nontrivial = True
     inp = dict(kind='adjust', S=[[_f(v) for v in r] for r in S], O=[_f(v) for v in O], thetas=[[_f(v) for v in t] for t in thetas],
                names_given=bool(rng.random() < 0.5))
+    if kind == 'refit':
+        n0 = int(rng.integers(m + 4, m + 11))
+        S0 = O[None, :] + rng.normal(size=(n0, m))
+        inp['refit'] = dict(S=[[_f(v) for v in r] for r in S0], thetas=[[_f(v) for v in (rng.normal(size=n0) - 2.0 * S0.sum(axis=1))] for _ in range(p)])
+        nontrivial = True
     if kind in ('affine', 'all'):
         A = rng.normal(size=(m, m)) + 2.5 * np.eye(m) * rng.choice([-1.0, 1.0])
         inp['affine'] = dict(A=A.tolist(), c=np.round(rng.normal(size=m) * 3, 3).tolist())
@@ -179,17 +201,17 @@ def _rejection_case(mods, seed):
 def run_adjust(tier='quick', seed=0, first_failure_only=True):
     mods = _mods()
     rng = np.random.default_rng(1000 + seed)
-    N = 40 if tier == 'quick' else 300
+    N = 42 if tier == 'quick' else 300
     cases = nontrivial = 0
     failures = []
-    kinds = ['plain', 'nonfinite', 'zero', 'affine', 'all']
+    kinds = ['plain', 'nonfinite', 'zero', 'affine', 'all', 'refit']
     for t in range(N):
         inp, nt = _gen_adjust(rng, kinds[t % len(kinds)])
         cases += 1
         nontrivial += nt
         f = check_adjust(inp, mods)
         if f:
-            failures.append(dict(signature='c17:adjust:' + f.split(':')[0][:40], what=f, input=inp))
+            failures.append(dict(signature='c17:adjust:' + ('re-used adjustment object' if inp.get('refit') else ''.join(ch for ch in f.split(':')[0] if not ch.isdigit())[:40]), what=f, input=inp))
             if first_failure_only:
                 break
     if not failures:
@@ -204,8 +226,8 @@ def run_adjust(tier='quick', seed=0, first_failure_only=True):
                 failures.append(dict(signature='c17:adjust:rejection', what=f, input=dict(kind='adjust-rejection', seed=seed + sd)))
                 break
     return dict(name='adjust_posterior-vs-lstsq', bound='%d random constructed samples (n <= 13, 1-3 summaries, 1-2 parameters; inf/-inf/nan entries, '
-                'zero rows, affine re-expressions) from seed %d + Rejection-produced samples' % (N, seed),
-                rule='non-trivial = the case has a non-finite entry, a row with simulated == observed, or an affine re-expression',
+                'zero rows, affine re-expressions, re-used adjustment objects) from seed %d + Rejection-produced samples' % (N, seed),
+                rule='non-trivial = the case has a non-finite entry, a row with simulated == observed, an affine re-expression, or re-uses an adjustment object that was fitted before',
                 cases=cases, nontrivial=nontrivial, failures=failures)
 
 
@@ -318,7 +340,9 @@ def run(tier='quick', seed=0, first_failure_only=True):
 
 
 def replay_input(inp):
-    """True iff the property HOLDS on this input"""
+    """True iff the property HOLDS on this input (accepts the bare input or the failure record that wraps it)"""
+    if 'kind' not in inp and isinstance(inp.get('input'), dict):
+        inp = inp['input']
     if inp.get('kind') == 'compare':
         return check_compare(inp) is None
     if inp.get('kind') == 'adjust-rejection':
